@@ -137,8 +137,9 @@ class UGLA(Sampler):
             self._priorloc = self.target.prior.location
 
         # Initial Laplace approx
+        # (the prior block of the operator M is scaled by sqrt(1/scale), so the prior block of the right-hand side is too)
         self._L2 = Lk_fun(self.x0)
-        self._L2mu = self._L2@self._priorloc
+        self._L2mu = np.sqrt(1/self.target.prior.scale)*(self._L2@self._priorloc)
         self._b_tild = np.hstack([self._L1@self._data, self._L2mu]) 
         
         #self.n = len(self.x0)
@@ -166,7 +167,7 @@ class UGLA(Sampler):
 
             # Update Laplace approximation
             self._L2 = Lk_fun(samples[:, s])
-            self._L2mu = self._L2@self._priorloc
+            self._L2mu = np.sqrt(1/self.target.prior.scale)*(self._L2@self._priorloc)
             self._b_tild = np.hstack([self._L1@self._data, self._L2mu]) 
         
             # Sample from approximate posterior
